@@ -310,12 +310,13 @@ func TestVerif_C29(t *testing.T) {
 					return false
 				}
 				return true
-			}, c.Expired)
+			}, nil) // no deadline: the harness runs under synctest's fake clock, which leaked timers can advance
 			if st.Executions > 0 && si%16 == 0 {
 				c.Sample(map[string]interface{}{"scenario": name, "schedules": st.Executions, "by_preemptions": st.ByBound, "max_decisions": st.MaxDecisions})
 			}
 			c.AddStates(int64(st.Executions))
 		}, nil)
+		c29FieldPart(c) // second family: index/field level with lazy view/fragment creation
 		c.AddValidated(c.Evaluations)
 		c.Assume("lock-level interleavings only (channel hand-offs, atomics and lock-free regions are not split); Go memory model semantics under toolchain go1.26.8 (testing/synctest), not the pinned go1.23.5; data races are NOT decided by this exploration (see the auxiliary -race pass)")
 		code := c.Finish()
